@@ -201,3 +201,22 @@ class ArrayShim:
 struct_shim = StructShim()
 socket_shim = SocketShim()
 array_shim = ArrayShim()
+
+
+import math as _math
+class MathShim:
+  """math with modf() on symbolic *integers* (virtual clocks are integer valued: fractional part 0)"""
+  def __getattr__(self, n): return getattr(_math, n)
+  @staticmethod
+  def modf(x):
+    if isinstance(x, (SymInt, SymBool)): return (0, lift(x))
+    return _math.modf(x)
+  @staticmethod
+  def floor(x):
+    if isinstance(x, (SymInt, SymBool)): return lift(x)
+    return _math.floor(x)
+  @staticmethod
+  def ceil(x):
+    if isinstance(x, (SymInt, SymBool)): return lift(x)
+    return _math.ceil(x)
+math_shim = MathShim()
